@@ -94,6 +94,24 @@ CLAIMS = {
              "(seeds, engines, models, cores, proofs, interpolants, non-incremental) is run three times - ASLR on, on, off "
              "(setarch -R) - and standard output and exit status must be byte-identical.",
         design_ref="5 C23"),
+    "C24": dict(
+        technique="Lean 4 proof (pool machine of the shared big-rational pool: a cell handed out is never in use, invariant kept by alloc and release) tied by concurrent runs under ThreadSanitizer compared with runs alone - partial",
+        text="PARTIAL: absence of data races and memory errors is searched for, not proved. Theorems: in the pool machine (what the "
+             "mutex-protected mpqPool executes) alloc never returns a cell that is in use and alloc / release keep the invariant "
+             "that every cell is free or in use, never both. Tie: a harness linked against a ThreadSanitizer build solves 2-8 "
+             "random LRA/LIA instances with coefficients of 2^70 at the same time (one solver, logic and config per thread) and "
+             "compares every answer with the answer of the same instance alone; any ThreadSanitizer report or differing answer "
+             "is a violation.",
+        design_ref="5 C24"),
+    "C25": dict(
+        technique="Lean 4 proof (restart loop with a stop flag: the stopped run answers unknown or what the undisturbed run answers) tied by stop requests at random moments of real runs under ThreadSanitizer - partial",
+        text="PARTIAL: absence of data races and crashes is searched for, not proved. Theorems: for every search behaviour, "
+             "every moment at which the request becomes visible and every bound, the loop answers unknown or exactly the "
+             "answer of the run without the request; a request visible before the first round gives unknown. Tie: the harness "
+             "calls notifyStop / notifyGlobalStop from another thread after a random delay between zero and 1.5 times the "
+             "solving time of the instance (measured on an undisturbed run) and requires unknown or the undisturbed answer, "
+             "with no ThreadSanitizer report.",
+        design_ref="5 C25"),
     "C28": dict(
         technique="Lean 4 proof (hash-consed store: interning is idempotent, identities are stable and injective, arguments are older, commutative symbols order-insensitive) tied by differential construction sequences through the Logic API",
         text="Theorems over every store reachable from the empty one and every node: building a node twice returns the same "
